@@ -1,4 +1,5 @@
 import OnetVerif.Model.C19
+import OnetVerif.Model.C19Proxy
 import OnetVerif.Proofs.C19Field
 import OnetVerif.Proofs.C19Stats
 import OnetVerif.Proofs.C19Net
@@ -469,6 +470,62 @@ example : rulesMatch [{ low := 2, high := 5 }] 4 = true ∧ rulesMatch [{ low :=
     rulesMatch [{ low := -3, high := 5 }] (-1) = false := by decide
 
 
+/-! ### clients that report through the proxy (`Model/C19Proxy.lean`) -/
+section proxy
+variable {K : Type} [Field K] [LinearOrder K] [IsStrictOrderedRing K] [HasSqrt K] {κ : Type} [LinearOrder κ]
+
+/-- **c19_proxy_serves_every_client**: while the monitor accepts connections, `serve` as it is relays every client —
+none is refused, the endpoint stays in the rotation — however the clients before it ended (orderly or by a reset):
+a client's end is its own business -/
+theorem c19_proxy_serves_every_client (cs : List (Proxy.Client κ K)) (s : Proxy.St κ K) (ha : s.active = true) :
+    (Proxy.run .code s cs).active = true ∧ (Proxy.run .code s cs).refused = s.refused ∧
+    (Proxy.run .code s cs).relayed = s.relayed ++ cs.map (·.sent) := by
+  induction cs generalizing s with
+  | nil => simp [Proxy.run, ha]
+  | cons c rest ih =>
+    have hs : Proxy.serve .code true s c = { s with relayed := s.relayed ++ [c.sent] } := by
+      unfold Proxy.serve; cases h : c.ending <;> simp [ha]
+    have := ih (Proxy.serve .code true s c) (by rw [hs]; exact ha)
+    simp only [Proxy.run, List.foldl_cons] at this ⊢
+    rw [hs] at this ⊢
+    simpa [List.append_assoc] using this
+
+/-- **c19_proxy_reports_all**: the statistics of a run whose clients all report through the proxy.  One idle
+connection straight to the monitor plus the relayed clients are the monitor's connections; take any schedule of the
+monitor until nothing is enabled, every connection accepted: `Listen` has returned and the global result set and
+every bucket report what they would report had the records of all clients been fed one after the other — whatever
+way each client ended and however the records were spread over the clients -/
+theorem c19_proxy_reports_all (isEnd : κ → Bool) (m : Monitor κ K) (hg : SortedKeys m.global.vals)
+    (hb : ∀ b ∈ m.buckets, SortedKeys b.stats.vals) (cs : List (Proxy.Client κ K))
+    (acts : List Act) (n' : Net κ K)
+    (h : (Net.start m ([] :: (Proxy.run .code {} cs).relayed)).run isEnd acts = some n')
+    (hq : n'.canMove isEnd = false) (hall : ∀ c ∈ n'.conns, c.accepted = true) :
+    n'.finished = true ∧ (Proxy.run .code ({} : Proxy.St κ K) cs).refused = 0 ∧
+    n'.mon.global.report =
+      ((((cs.map (·.sent)).map (noEnd isEnd)).flatten).foldl Monitor.update m).global.report ∧
+    n'.mon.buckets.map (fun b => (b.idx, b.rules, b.stats.report)) =
+      ((((cs.map (·.sent)).map (noEnd isEnd)).flatten).foldl Monitor.update m).buckets.map
+        (fun b => (b.idx, b.rules, b.stats.report)) := by
+  obtain ⟨_, hr, hrel⟩ := c19_proxy_serves_every_client cs ({} : Proxy.St κ K) rfl
+  have hrel' : (Proxy.run .code ({} : Proxy.St κ K) cs).relayed = cs.map (·.sent) := by simpa using hrel
+  rw [hrel'] at h
+  obtain ⟨hf, h1, h2⟩ := c19_listen_reports_all isEnd m hg hb _ acts n' h hq hall
+  refine ⟨hf (by simp), by simpa using hr, ?_, ?_⟩
+  · simpa [noEnd] using h1
+  · simpa [noEnd] using h2
+
+/-- why the copy loop must not take the endpoint out of the rotation: in the variant that does so when
+`io.Copy(out, in)` ends with an error, a client that is reset makes the proxy close the next client's connection
+at once — what that client records reaches no result set (seeded change C19r6-B) -/
+theorem c19_proxy_reset_blocks_next_client_variant :
+    let cs : List (Proxy.Client ℕ ℚ) := [⟨[⟨1, 5, 0⟩], .reset⟩, ⟨[⟨2, 7, 1⟩], .orderly⟩]
+    (Proxy.run .deactivateOnCopyError {} cs).refused = 1 ∧
+    (Proxy.run .deactivateOnCopyError {} cs).relayed.length = 1 ∧
+    (Proxy.run .code {} cs).refused = 0 ∧ (Proxy.run .code {} cs).relayed.length = 2 := by
+  decide
+
+end proxy
+
 /-! ### the code regions the model stands for
 Regenerated from /repo's source on every run (`harness/cmd/astfacts` → `OnetVerif/Shapes.lean`): the
 calls that matter for synchronisation and data flow, the lock regions and (for decision logic) the
@@ -644,6 +701,30 @@ theorem c19_shape_build_RunTest :
      "if:(err!=nil)", "recv:done", "assign:err:=<-done", "if:(err!=nil)",
      "return:nil,xerrors.Errorf(\"\",err)", "return:stats,nil", "recv:After()", "time.After",
      "return:nil,xerrors.New(\"\")"] := rfl
+
+theorem c19_shape_monitor_tcpproxy_TCPProxy_serve :
+    Shapes.simul_monitor_tcpproxy_TCPProxy_serve =
+   ["for:{", "mu.Lock", "tp.pick", "assign:remote:=tp.pick()", "mu.Unlock", "if:(remote==nil)",
+     "break", "net.Dial", "assign:out,err=net.Dial(\"\",remote.addr)", "if:(err==nil)", "break",
+     "remote.inactivate", "}", "if:(out==nil)", "in.Close", "return:", "go{", "io.Copy",
+     "in.Close", "out.Close", "}", "io.Copy", "out.Close", "in.Close"] := rfl
+
+theorem c19_shape_monitor_tcpproxy_remote_inactivate :
+    Shapes.simul_monitor_tcpproxy_remote_inactivate =
+   ["mu.Lock", "defer:mu.Unlock", "assign:r.inactive=true"] := rfl
+
+theorem c19_shape_monitor_tcpproxy_remote_tryReactivate :
+    Shapes.simul_monitor_tcpproxy_remote_tryReactivate =
+   ["net.Dial", "assign:conn,err:=net.Dial(\"\",r.addr)", "if:(err!=nil)",
+     "return:xerrors.Errorf(\"\",err)", "conn.Close", "mu.Lock", "defer:mu.Unlock",
+     "assign:r.inactive=false", "return:nil"] := rfl
+
+theorem c19_shape_monitor_proxy_NewProxy :
+    Shapes.simul_monitor_proxy_NewProxy =
+   ["net.Listen", "assign:ln,err:=net.Listen(\"\",fmt.Sprintf(\"\",addr,listenPort))",
+     "if:(err!=nil)", "return:nil,xerrors.Errorf(\"\",err)", "assign:e:=make(conv,1)",
+     "assign:e[0]=new(net.SRV)", "assign:e[0].Target=\"\"", "assign:e[0].Port=toPort",
+     "return:&TCPProxy{Listener:ln,Endpoints:e},nil"] := rfl
 
 
 end C19
